@@ -207,10 +207,24 @@ def rule_derived(ctx, ci):
     want = RatFun(ln.num * cb.den - cb.num * ln.den, ln.den * cb.den)
     r = RatFun.of(paths[0].value) if len(paths) == 1 and paths[0].kind == "return" else None
     ctx.check(r is not None and r.same(want), R, "space_left", f.where(), "Bar.space_left()", "space left is %r, expected length - beat" % (r,))
+    # value_left on a bar that is consistent with itself: one entry of value v0, current beat 1/v0
     f = repo.find_method(ci, "value_left")
-    paths = run_method(repo, f, lambda: [bar_obj(ci, current_beat=cb, length=ln)])
-    r = RatFun.of(paths[0].value) if len(paths) == 1 and paths[0].kind == "return" else None
-    ctx.check(r is not None and r.same(RatFun(want.den, want.num)), R, "value_left", f.where(), "Bar.value_left()", "value left is %r, expected 1/(length - beat)" % (r,))
+    v0 = RatFun.var("v0")
+    one = RatFun.of(1)
+    cb1 = RatFun(one.num * v0.den, one.den * v0.num)
+    want1 = RatFun(ln.num * cb1.den - cb1.num * ln.den, ln.den * cb1.den)
+
+    def mk_interp(ch):
+        it = Interp(repo, ch)
+        fint_builtin_wrap(it)
+        return it
+    try:
+        paths = explore(mk_interp, lambda it: it.call_function(f, [bar_obj(ci, bar=[[RatFun.of(0), v0, None]], current_beat=cb1, length=ln, meter=(4, 4))], {}))
+    except CannotDecide as e:
+        raise AnalysisError("Bar.value_left: %s" % e)
+    rets = [RatFun.of(p.value) for p in paths if p.kind == "return"]
+    ok = bool(rets) and all(r is not None and r.same(RatFun(want1.den, want1.num)) for r in rets)
+    ctx.check(ok, R, "value_left", f.where(), "Bar.value_left()", "value left is %r, expected 1/(length - total of the entries)" % ([(p.kind, p.value) for p in paths],))
     # set_meter
     f = repo.find_method(ci, "set_meter")
     m0, m1 = RatFun.var("count"), RatFun.var("unit")
